@@ -49,16 +49,33 @@ pub fn judge(x: &[u8], rec: &mut Recorder) {
     // the header as returned by each entry point: try_from(&[u8]) (kept borrowed-then-owned),
     // try_from(&str), str::parse::<Header>()
     let mut any = false;
-    for entry in 0..3 {
+    for entry in 0..6 {
         let parsed = guard(|| match entry {
             0 => v1::Header::try_from(x).ok().map(|h| h.to_owned()),
             1 => std::str::from_utf8(x).ok().and_then(|s| v1::Header::try_from(s).ok()).map(|h| h.clone().to_owned()),
-            _ => std::str::from_utf8(x).ok().and_then(|s| s.parse::<v1::Header<'static>>().ok()),
+            2 => std::str::from_utf8(x).ok().and_then(|s| s.parse::<v1::Header<'static>>().ok()),
+            // Clone::clone_from into a long-lived owned header of another kind (TCP4 / UNKNOWN),
+            // from an owned and from a borrowed source
+            3 => v1::Header::try_from(x).ok().map(|h| {
+                let mut slot = crate::c03::OTHER_V1.with(|o| o.clone());
+                slot.clone_from(&h.to_owned());
+                slot
+            }),
+            4 => v1::Header::try_from(x).ok().map(|h| {
+                let mut slot = v1::Header::new("PROXY UNKNOWN stale text\r\n", v1::Addresses::Unknown).to_owned();
+                slot.clone_from(&h.to_owned());
+                slot
+            }),
+            _ => v1::Header::try_from(x).ok().map(|h| {
+                let mut slot = crate::c03::OTHER_V1.with(|o| o.clone());
+                slot.clone_from(&h);
+                slot.to_owned()
+            }),
         });
         rec.event();
         if let Ok(Some(h)) = parsed {
             any = true;
-            judge_header(x, &h, ["try_from(&[u8])", "try_from(&str)", "parse::<Header>"][entry], rec);
+            judge_header(x, &h, ["try_from(&[u8])", "try_from(&str)", "parse::<Header>", "clone_from(owned)->tcp4-slot", "clone_from(owned)->unknown-slot", "clone_from(borrowed)"][entry], rec);
         }
     }
     rec.case(hash_bytes(x), any);
